@@ -23,4 +23,12 @@ theorem label_ok :
 /-- version numbering and batching (C14, C10, C05) -/
 theorem numbering_ok : genesisVersion = 1 ∧ maxBatchSize = 10000 ∧ defaultFlushThreshold = 100000 := by decide
 
+/-- the IAVL proof specification of the linked ics23 module (C03: Model/Ics23.lean uses 4, 12, 33, two
+    children, no empty-child placeholder, leaf prefix 0x00, no depth override (default 128), keys
+    compared as they are) -/
+theorem ics23_ok :
+    ics23MinPrefixLength = 4 ∧ ics23MaxPrefixLength = 12 ∧ ics23ChildSize = 33 ∧ ics23ChildOrderLen = 2 ∧
+    ics23EmptyChildLen = 0 ∧ ics23LeafPrefixLen = 1 ∧ ics23LeafPrefixByte = 0 ∧ ics23MaxDepth = 0 ∧
+    ics23MinDepth = 0 ∧ ics23PrehashKeyBeforeComparison = 0 := by decide
+
 end Iavl.Facts
